@@ -1626,7 +1626,17 @@ func (sc *serverConn) processData(f *DataFrame) error {
 		// RFC 7540, sec 8.1.2.6: A request or response is also malformed if the
 		// value of a content-length header field does not equal the sum of the
 		// DATA frame payload lengths that form the body.
-		return StreamError{id, ErrCodeProtocol, err.Error()}
+		se := StreamError{id, ErrCodeProtocol, err.Error()}
+		if sc.inflow.available() < int32(f.Length) {
+			return se
+		}
+		// Reset the stream, then count the frame against the connection-level
+		// window and return its octets at once: the peer has debited them and
+		// they are never going to be consumed.
+		sc.resetStream(se)
+		sc.inflow.take(int32(f.Length))
+		sc.sendWindowUpdate(nil, int(f.Length))
+		return nil
 	}
 	if f.Length > 0 {
 		// Check whether the client has flow control quota.
